@@ -45,6 +45,21 @@ func inflateIndependent(payload []byte) ([]byte, error) {
 // removed, by an encoder that is not the library's.
 func deflateIndependent(msg []byte, which, level int) []byte {
 	var buf bytes.Buffer
+	if which >= 2 {
+		// RFC 7692 §7.2.3.4: a DEFLATE block with BFINAL set, followed by one
+		// zero byte so that the receiver's 00 00 ff ff completes an empty
+		// stored block.
+		if which == 2 {
+			w, _ := kflate.NewWriter(&buf, level)
+			w.Write(msg)
+			w.Close()
+		} else {
+			w, _ := flate.NewWriter(&buf, level)
+			w.Write(msg)
+			w.Close()
+		}
+		return append(buf.Bytes(), 0x00)
+	}
 	if which == 0 {
 		w, _ := kflate.NewWriter(&buf, level)
 		w.Write(msg)
@@ -140,6 +155,35 @@ func c12Writer(r *eng.Run) {
 	}
 	// And the library's own reader recovers it, under any chunking.
 	c12ReadBack(r, dst.Out, msg, "library writer output")
+	// One Writer for consecutive messages (Reset between them) whose contents
+	// overlap: every message must inflate on its own (no context takeover was
+	// negotiated by resetting).
+	if r.T.Chance(sim.LHist, 1, 3) {
+		base := drawFlateMsg(r)
+		if len(base) > 4000 {
+			base = base[:4000]
+		}
+		w := wsflate.NewWriter(nil, flateCtor(level))
+		for i := 0; i < 2+r.T.Int(sim.LHist, 2); i++ {
+			m := append(append([]byte("shared prefix shared prefix "), base...), byte('0'+i))
+			out := NewPipe(r, nil)
+			w.Reset(out)
+			_, e1 := w.Write(m)
+			e2 := w.Flush()
+			var e3 error
+			if r.T.Bool(sim.LHist) {
+				e3 = w.Close()
+			}
+			if e1 != nil || e2 != nil || e3 != nil {
+				r.Failf("unexpected_error", "reused wsflate.Writer, message %d: %v %v %v", i, e1, e2, e3)
+			}
+			got, err := inflateIndependent(out.Out)
+			if err != nil || !bytes.Equal(got, m) {
+				r.Failf("roundtrip_mismatch", "reused wsflate.Writer (level %d), message %d of %d bytes does not inflate on its own: %v (got %d bytes)", level, i, len(m), err, len(got))
+			}
+		}
+		r.Probe("writer_reused_across_messages")
+	}
 }
 
 // c12ReadBack feeds compressed to wsflate.Reader through a segmented source.
@@ -196,10 +240,13 @@ func (b *byteSrc) ReadByte() (byte, error) {
 func c12Reader(r *eng.Run) {
 	r.SetEntry("wsflate.Reader")
 	msg := drawFlateMsg(r)
-	which := r.T.Int(sim.LCfg, 2)
+	which := r.T.Int(sim.LCfg, 4)
 	level := r.T.Range(sim.LCfg, 0, 9)
-	if which == 0 && level == 0 {
+	if which%2 == 0 && level == 0 {
 		level = 1
+	}
+	if which >= 2 {
+		r.Probe("payload_with_bfinal_block")
 	}
 	comp := deflateIndependent(msg, which, level)
 	r.Note("C12 wsflate.Reader over independent encoder %d level %d: %d -> %d bytes", which, level, len(msg), len(comp))
@@ -209,18 +256,28 @@ func c12Reader(r *eng.Run) {
 	// connection handler would use it.
 	if r.T.Bool(sim.LHist) {
 		fr := wsflate.NewReader(nil, drawDtor(r))
-		for i := 0; i < 2+r.T.Int(sim.LHist, 2); i++ {
+		for i := 0; i < 3+r.T.Int(sim.LHist, 3); i++ {
 			m := drawFlateMsg(r)
-			if len(m) > 3000 {
+			if len(m) > 3000 && !r.T.Chance(sim.LLen, 1, 3) {
 				m = m[:3000]
 			}
 			src := NewPipe(r, deflateIndependent(m, r.T.Int(sim.LCfg, 2), 5))
-			src.SegMode = SegTiny
+			src.SegMode = SegSmall
 			var rd io.Reader = src
-			if r.T.Bool(sim.LCfg) {
+			if (i+r.T.Int(sim.LCfg, 2))%2 == 0 { // mostly alternating kinds of source
 				rd = &byteSrc{src}
 			}
 			fr.Reset(rd)
+			if r.T.Chance(sim.LHist, 1, 4) {
+				r.Probe("reader_reset_without_reading")
+				continue // reset again before anything was read
+			}
+			if len(m) > 8 && r.T.Chance(sim.LHist, 1, 2) {
+				// The application abandons this message after a few bytes.
+				io.ReadFull(fr, make([]byte, 3))
+				r.Probe("reader_reset_mid_message")
+				continue
+			}
 			got, err := io.ReadAll(fr)
 			if err != nil || !bytes.Equal(got, m) {
 				r.Failf("roundtrip_mismatch", "reused wsflate.Reader, message %d (%d bytes): got %d bytes, err %v", i, len(m), len(got), err)
@@ -296,7 +353,7 @@ func c12Helpers(r *eng.Run) {
 	// And back, also from an independent encoder's output.
 	in := cf
 	if r.T.Bool(sim.LCfg) {
-		in.Payload = deflateIndependent(keep, r.T.Int(sim.LCfg, 2), 5)
+		in.Payload = deflateIndependent(keep, r.T.Int(sim.LCfg, 4), 5)
 		in.Header.Length = int64(len(in.Payload))
 	}
 	var df ws.Frame
@@ -385,7 +442,18 @@ func c12FaultyCompressor(r *eng.Run) {
 		msg = append(msg, patBytes(1, 0, 16)...)
 	}
 	dst := NewPipe(r, nil)
+	// Optionally the Writer has already carried a good message with a healthy
+	// compressor instance; the faulty one is what the constructor hands out
+	// at the Reset.
+	goodFirst := mode <= 3 && r.T.Bool(sim.LHist)
+	ninst := 0
 	w := wsflate.NewWriter(dst, func(d io.Writer) wsflate.Compressor {
+		ninst++
+		if goodFirst && ninst == 1 {
+			c := &faultyCompressor{dst: d, mode: 4}
+			c.fw, _ = flate.NewWriter(d, 5)
+			return c
+		}
 		c := &faultyCompressor{dst: d, mode: mode}
 		if mode == 1 || mode == 3 {
 			c.fw, _ = flate.NewWriter(&c.hold, 5)
@@ -398,6 +466,17 @@ func c12FaultyCompressor(r *eng.Run) {
 		}
 		return c
 	})
+	if goodFirst {
+		if _, err := w.Write([]byte("a first, healthy message")); err != nil {
+			r.Failf("unexpected_error", "healthy first message: %v", err)
+		}
+		if err := w.Flush(); err != nil {
+			r.Failf("unexpected_error", "healthy first message: Flush: %v", err)
+		}
+		dst = NewPipe(r, nil)
+		w.Reset(dst)
+		r.Probe("faulty_compressor_after_healthy_message")
+	}
 	if compFaultNames[mode] != "" {
 		r.Fault(compFaultNames[mode])
 	} else {
